@@ -34,12 +34,12 @@ def replay_program(inp, pools):
             prog.append(src)
         return prog
     if kind == "mac":
-        d, _, call = f[1].partition(" ;; ")
-        return ["(def g0 11)", "(def gl (list 1 2 3))", "(def a0 3)", "(def w0 40)", "(def w1 50)", d, call]
+        parts = f[1].split(" ;; ")
+        return ["(def g0 11)", "(def gl (list 1 2 3))", "(def a0 3)", "(def w0 40)", "(def w1 50)"] + parts
     if kind == "hist":
         return f[2].split(" ;; ")   # every step is its own evaluation; steps starting with ? are the observations
     if kind == "call":
-        return ["(def g0 11)", "(def gl (list 1 2 3))", "(def a0 3)", "(def w0 40)", "(def w1 50)", f[3], f[4]]
+        return ["(def g0 11)", "(def gl (list 1 2 3))", "(def a0 3)", "(def w0 40)", "(def w1 50)"] + f[3].split(" ;; ") + [f[4]]
     return []
 
 
